@@ -75,9 +75,10 @@ def item_equal(a, b):
 
 
 class ExportRecord:
-    __slots__ = ("series", "description_row", "round", "complete", "seq", "consecutive")
+    __slots__ = ("series", "description_row", "round", "complete", "seq", "consecutive", "delimiter")
 
-    def __init__(self, series, description_row, rnd, seq, consecutive=True):
+    def __init__(self, series, description_row, rnd, seq, consecutive=True, delimiter=None):
+        self.delimiter = delimiter       # None: the default comma
         self.series = series          # name -> (freq|None, nv, cells(rounded, restricted), desc)
         self.description_row = description_row
         self.round = rnd
@@ -699,6 +700,12 @@ class DataboxWorld(World):
         args = {"box": b, "path": self._gen_path(rng), "names": names, "span": span,
                 "description_row": rng.random() < 0.5, "round": rng.choice([12, 12, None, 2, 6]),
                 "nan_str": rng.choice(["", "", "nan", "NaN"]), "plan": self._gen_fault_plan(flt)}
+        if rng.random() < 0.15:
+            # another column delimiter, given to the writer and later to the reader of the same file
+            args["delimiter"] = rng.choice([";", "\t", "|"])
+        if rng.random() < 0.15:
+            # a documented pass-through to the csv writer: quote whatever is not a number (the numbers must stay numbers)
+            args["quoting"] = "nonnumeric"
         if rng.random() < 0.12:
             # a selection that leaves nothing to export, now and then asked to be an error: such an export is
             # rejected before anything is written, so what an earlier export left under the same path stays
@@ -743,16 +750,31 @@ class DataboxWorld(World):
         n = rng.randint(1, 7)
         nv = rng.randint(1, 3)
 
-        def vals():
+        def vals(overwrite=False):
             out = {}
             for nm in names:
                 if rng.random() < 0.3:
                     out[nm] = val.choice(VALUE_POOL) if rng.random() < 0.7 else [val.choice(VALUE_POOL) for _ in range(rng.randint(1, 3))]
+                    if overwrite and rng.random() < 0.35:
+                        # an overwrite replaces the whole row, missing values included: a missing scalar, or a series that
+                        # covers only part of the span (what it leaves missing stays missing - fallbacks do not come back)
+                        if rng.random() < 0.4:
+                            out[nm] = "nan"
+                        else:
+                            k = rng.randint(1, 2)
+                            out[nm] = {"series": {"start": a + rng.randint(-2, n - 1), "nv": k,
+                                                  "values": [[self._rand_value(val) for _ in range(k)] for _ in range(rng.randint(1, 3))]}}
             return out or None
+        fb = vals() if rng.random() < 0.4 else None
+        ow = vals(True) if rng.random() < 0.3 else None
+        if fb and rng.random() < 0.5:
+            # both declared for one name: the fallback fills first, the overwrite has the last word
+            nm = rng.choice(sorted(fb))
+            ow = dict(ow or {})
+            ow.setdefault(nm, "nan" if rng.random() < 0.5 else val.choice(VALUE_POOL))
         return {"op": "slate", "out": [self._name()], "args": {
             "box": b, "names": names, "freq": f, "a": a, "n": n, "num_variants": nv,
-            "fallbacks": vals() if rng.random() < 0.4 else None,
-            "overwrites": vals() if rng.random() < 0.3 else None}}
+            "fallbacks": fb, "overwrites": ow}}
 
     def _gen_slate_new(self, actor, rng, val, flt):
         if len(self.slates) >= 2:
@@ -1567,6 +1589,13 @@ class DataboxWorld(World):
         kw = {"description_row": a["description_row"], "round": a["round"], "nan_str": a["nan_str"], "when_empty": a.get("when_empty") or "silent"}
         if a["names"] is not None:
             kw["names"] = list(a["names"])
+        if a.get("delimiter"):
+            kw["delimiter"] = a["delimiter"]
+            self.probes["export_other_delimiter"] += 1
+        if a.get("quoting") == "nonnumeric":
+            import csv
+            kw["csv_writer_settings"] = {"quoting": csv.QUOTE_NONNUMERIC}
+            self.probes["export_quote_nonnumeric"] += 1
         span = a["span"]
         if span is not None:
             if span["k"] == "span":
@@ -1671,7 +1700,7 @@ class DataboxWorld(World):
             self.probes["export_completed_despite_fault"] += 1
         self._check_heap("export", pred)
         self._check_bindings_unchanged("export", pred)
-        self.disk[path] = ExportRecord(rec, a["description_row"], a["round"], self.seq, self._last_export_consecutive)
+        self.disk[path] = ExportRecord(rec, a["description_row"], a["round"], self.seq, self._last_export_consecutive, a.get("delimiter"))
         if "short_write" in fired:
             try:
                 bytes(self.fs.files[path]).decode("utf-8")
@@ -1731,6 +1760,8 @@ class DataboxWorld(World):
             pred = ",".join(parts)
         opens_before = self.fs.totals["open"]
         kw = {"description_row": a["description_row"]}
+        if rec is not None and rec != "torn" and rec.delimiter:
+            kw["delimiter"] = rec.delimiter
         if a.get("start_period_only") and (rec is None or rec == "torn" or rec.consecutive):
             # the exported blocks are contiguous, so inferring the periods from the first one must give the same series
             kw["start_period_only"] = True
@@ -1834,7 +1865,21 @@ class DataboxWorld(World):
                     col[np.isnan(col)] = pick(fb, k)
                 ow = (a["overwrites"] or {}).get(nm)
                 if ow is not None:
-                    col[:] = pick(ow, k)
+                    if isinstance(ow, dict):
+                        sp = ow["series"]
+                        vals = from_nan_list(sp["values"], sp["nv"])
+                        col[:] = np.nan
+                        for i in range(vals.shape[0]):
+                            t = sp["start"] + i
+                            if lo <= t < lo + n:
+                                col[t - lo] = vals[i, min(k, sp["nv"] - 1)]
+                        self.probes["slate_overwrite_by_partial_series"] += 1
+                    elif ow == "nan":
+                        col[:] = np.nan
+                    else:
+                        col[:] = pick(ow, k)
+                    if fb is not None:
+                        self.probes["slate_fallback_and_overwrite_for_one_name"] += 1
                 cols.append(col)
             arr = np.column_stack(cols)
             want[nm] = ("s", Exp(f, nv, {lo + i: arr[i] for i in range(n)}), "any")
@@ -1842,7 +1887,14 @@ class DataboxWorld(World):
         if a["fallbacks"]:
             kw["fallbacks"] = {k: (list(v) if isinstance(v, list) else v) for k, v in a["fallbacks"].items()}
         if a["overwrites"]:
-            kw["overwrites"] = {k: (list(v) if isinstance(v, list) else v) for k, v in a["overwrites"].items()}
+            def real_ow(v):
+                if isinstance(v, dict):
+                    sp = v["series"]
+                    return ir.Series(num_variants=sp["nv"], start=P(f, sp["start"]), values=from_nan_list(sp["values"], sp["nv"]))
+                if v == "nan":
+                    return float("nan")
+                return list(v) if isinstance(v, list) else v
+            kw["overwrites"] = {k: real_ow(v) for k, v in a["overwrites"].items()}
         return box, names, span, want, kw
 
     # live dataslates: several databoxes taken from one slate, the slate mutated in between -------------
@@ -1978,7 +2030,8 @@ class DataboxWorld(World):
             if rec.description_row and any("\n" in v[3] for v in rec.series.values()):
                 parts.append("description_has_newline")
             pred = ",".join(parts)
-            status, r, _ = self._run("finish.reread", pred, lambda: ir.Databox.from_csv_file(path, description_row=rec.description_row))
+            kwr = {"delimiter": rec.delimiter} if rec.delimiter else {}
+            status, r, _ = self._run("finish.reread", pred, lambda: ir.Databox.from_csv_file(path, description_row=rec.description_row, **kwr))
             if status != "ok":
                 v = Violation("crash", "import", pred, type(r).__name__, f"final re-read of completed export {path} raised {type(r).__name__}: {str(r)[:160]}")
                 if self.known is not None and self.known.match(v):
